@@ -7,8 +7,10 @@ R3 sum of requested sleeps <= D
 R4 a failure observed at elapsed >= D is followed by no sleep and no attempt
 R5 wall-clock independence: re-running the scenario with a different wall-clock
    jump plan yields the identical trace
-All integer arithmetic on the microsecond grid; callbacks other than the
-operation and the sleeper take zero virtual time.
+All integer arithmetic on the microsecond grid; besides the operation and the
+sleeper only the strategy's record_failure feedback hook takes virtual time (it
+runs between the loop's deadline check and its computation of the remaining
+time); everything between that computation and the sleep request is instantaneous.
 """
 from __future__ import annotations
 
@@ -23,13 +25,13 @@ from . import common
 
 ID = "C02"
 LEVEL = "exploration"
-KNOBS = {"p_attempt_timeout": 0.2, "p_generous": 0.12, "p_overshoot": 0.5, "p_wall_jumps": 0.6, "p_hostile": 0.3, "p_budget": 0.1, "p_abort": 0.05,
+KNOBS = {"p_feedback": 0.4, "p_slow_feedback": 0.6, "p_attempt_timeout": 0.2, "p_generous": 0.12, "p_overshoot": 0.5, "p_wall_jumps": 0.6, "p_hostile": 0.3, "p_budget": 0.1, "p_abort": 0.05,
          "p_decisions": 0.1, "p_handler": 0.2, "p_ok": 0.08, "p_retryable": 0.95, "p_per_class": 0.15, "p_default": 0.95}
 RULE = ("seeded swarm with boundary-biased timings: deadline steered to elapsed-1us/==/+1us at a failure or after a "
         "sleep, sleeper overshoots, strategies asking for more than remains (and NaN/inf/negatives), wall-clock jumps "
         "of seconds..days between any two clock reads; distinct by trace shape; non-trivial = >=1 failed attempt")
 COMPONENTS = common.REAL_COMPONENTS
-ASSUMPTIONS = ["callbacks other than operation and sleeper take zero virtual time", "sleeper overshoot >= 0",
+ASSUMPTIONS = ["callbacks other than operation, sleeper and the strategy feedback hook take zero virtual time", "sleeper overshoot >= 0",
                "the sleep handler never defers past the envelope (DEFER ends the run)", "sampling, not proof"]
 BUDGETS = {"quick": (48000, 90), "thorough": (2200000, 285)}
 
